@@ -611,6 +611,32 @@ func runVoxelSDF(id int, vox [][3]int, vs voxSDF, rng *rand.Rand, n int, ext [3]
 			}
 			rec.Sdf = append(rec.Sdf, o)
 		}
+		// the same probes once more from four goroutines at once ("all methods of an SDF are safe for
+		// concurrency"): every value must be the one the single caller got, bit for bit
+		want := make([]float64, len(rec.Sdf))
+		for i, o := range rec.Sdf {
+			want[i] = sdf.SDF(halfPt(o.P))
+		}
+		var concBad int32
+		var wg sync.WaitGroup
+		for g := 0; g < 4; g++ {
+			wg.Add(1)
+			go func(g int) {
+				defer wg.Done()
+				for rep := 0; rep < 3; rep++ {
+					for k := range rec.Sdf {
+						i := (k*5 + g*7 + rep) % len(rec.Sdf)
+						var d float64
+						if p := protect(func() { d = sdf.SDF(halfPt(rec.Sdf[i].P)) }); p != "" || d != want[i] {
+							atomic.AddInt32(&concBad, 1)
+						}
+						runtime.Gosched()
+					}
+				}
+			}(g)
+		}
+		wg.Wait()
+		rec.ConcBad = int(concBad)
 	})
 	return rec
 }
